@@ -21,4 +21,7 @@ VARIANTS = [
     # neutral
     V("N-len-of-coords", O, "        (array.sizes[ydim], array.sizes[xdim]),\n", "        (len(array[ydim]), len(array[xdim])),\n", None),
     V("N-keyword-out-shape", O, "        (array.sizes[ydim], array.sizes[xdim]),\n", "        out_shape=(array.sizes[ydim], array.sizes[xdim]),\n", None),
+    # G.12
+    V("empty-geometry-list-rejected(G.12)", "src/soundevent/geometry/operations.py", "    if not isinstance(values, (list, tuple)):\n        values = [values] * len(geometries)", "    if not geometries:\n        raise ValueError(\"No geometries to rasterize.\")\n\n    if not isinstance(values, (list, tuple)):\n        values = [values] * len(geometries)", "G.12"),
+    V("negative-fill-rejected(G.12)", "src/soundevent/geometry/operations.py", "    if not isinstance(values, (list, tuple)):\n        values = [values] * len(geometries)", "    if fill < 0:\n        raise ValueError(\"The fill value must not be negative.\")\n\n    if not isinstance(values, (list, tuple)):\n        values = [values] * len(geometries)", "G.12"),
 ]
